@@ -25,6 +25,7 @@ import (
 	"path/filepath"
 	"sort"
 	"strings"
+	"sync"
 	"time"
 	"unicode/utf8"
 
@@ -44,6 +45,8 @@ func main() {
 		"appended entries = random chains over real commit ids with identity/time/zone/message drawn from boundary-biased pools; git-written reflogs = seeded sequences of ref-updating git commands; shape = (message class, zone class, identity class, time class) resp. command kind; non-trivial = message needs normalisation, zone is not +0000, identity is non-ASCII/odd, or time is outside 1e9..2e9",
 		run)
 }
+
+var importMu sync.Mutex
 
 const zeroID = "0000000000000000000000000000000000000000"
 
@@ -247,7 +250,10 @@ func setupRepo(c *vf.Ctx, g *gitx.Git, name string, r *rand.Rand, n int) (dir st
 		return
 	}
 	h := gen.RandomHistory(r, gen.HistOpts{N: n, MergeProb: 0.2, Files: 2, Path: gen.PathOpts{Depth: 1}})
+	// gitx.Import names its marks file after the global call counter: not safe for concurrent use
+	importMu.Lock()
 	ids, err := g.Import(dir, h)
+	importMu.Unlock()
 	if err != nil {
 		c.Broken("%v", err)
 		return
